@@ -706,21 +706,64 @@ func E11ViewComposition(c *core.Ctx, r *core.Report) {
 	// CoordSystemView table: which systems reflect X / Y
 	csv := core.MustFuncDecl(p, "Context.CoordSystemView")
 	reflX, reflY := map[string]bool{}, map[string]bool{}
-	ast.Inspect(csv.Body, func(n ast.Node) bool {
+	// the table is read where the matrix is computed: in CoordSystemView itself, or in the helper its
+	// single return statement calls (so that the matrix follows the renderer's current size on every call)
+	tableFn := csv
+	if len(csv.Body.List) == 1 {
+		if ret, ok := csv.Body.List[0].(*ast.ReturnStmt); ok && len(ret.Results) == 1 {
+			if call, ok := core.Unparen(ret.Results[0]).(*ast.CallExpr); ok {
+				if f := core.CalleeOf(info, call); f != nil && f.Pkg() == p.Types {
+					for _, d := range core.AllFuncDecls(p) {
+						if info.Defs[d.Name] == f {
+							tableFn = d
+						}
+					}
+				}
+			} else if se, ok := core.Unparen(ret.Results[0]).(*ast.SelectorExpr); ok {
+				if sel := info.Selections[se]; sel != nil && sel.Kind() == types.FieldVal {
+					r.Fail("E11.draw-matrix", "canvas.Context.CoordSystemView|computed at the time of the draw", c.Pos(ret.Pos()), "CoordSystemView returns the stored field `"+types.ExprString(se)+"`: the reflections are about the centre of the renderer, whose size can change between SetCoordSystem and a draw (Fit, Clip, SetSize), so a stored matrix reflects about the old centre")
+				}
+			}
+		}
+	}
+	// reflects(e, "ReflectXAbout", "Width"): a call of that method whose argument calls the size getter
+	reflects := func(e ast.Expr, method, size string) bool {
+		found := false
+		ast.Inspect(e, func(k ast.Node) bool {
+			call, ok := k.(*ast.CallExpr)
+			if !ok || len(call.Args) != 1 {
+				return true
+			}
+			se, ok := call.Fun.(*ast.SelectorExpr)
+			if !ok || se.Sel.Name != method {
+				return true
+			}
+			ast.Inspect(call.Args[0], func(q ast.Node) bool {
+				if c2, ok := q.(*ast.CallExpr); ok {
+					if s2, ok := c2.Fun.(*ast.SelectorExpr); ok && s2.Sel.Name == size {
+						found = true
+					}
+				}
+				return true
+			})
+			return true
+		})
+		return found
+	}
+	ast.Inspect(tableFn.Body, func(n ast.Node) bool {
 		cc, ok := n.(*ast.CaseClause)
 		if !ok || len(cc.Body) != 1 {
 			return true
 		}
 		ret, ok := cc.Body[0].(*ast.ReturnStmt)
-		if !ok {
+		if !ok || len(ret.Results) != 1 {
 			return true
 		}
-		s := types.ExprString(ret.Results[0])
 		for _, k := range core.CaseConsts(info, cc) {
-			if strings.Contains(s, "ReflectXAbout(c.Width()") {
+			if reflects(ret.Results[0], "ReflectXAbout", "Width") {
 				reflX[k] = true
 			}
-			if strings.Contains(s, "ReflectYAbout(c.Height()") {
+			if reflects(ret.Results[0], "ReflectYAbout", "Height") {
 				reflY[k] = true
 			}
 		}
@@ -2343,7 +2386,7 @@ func E11ConstIndexInLoop(c *core.Ctx, r *core.Report) {
 
 // E11FitStroke: Fit grows every stroked path's bounds by half the stroke width, whatever the bounds are.
 func E11FitStroke(c *core.Ctx, r *core.Report) {
-	r.Rule("E11.fit-stroke", "Canvas.Fit: the bounds of a path layer are grown on all four sides by half the stroke width under the sole condition that the style has a stroke. A further condition on the bounds themselves (Rect.Empty is true for any rectangle of zero width or height) drops exactly horizontal and vertical stroked lines from the fit, and content then lies outside the canvas")
+	r.Rule("E11.fit-stroke", "(clause `caps and joins`: the expansion of a stroked path accounts for miter tips and square caps, by taking the bounds of the Path.Stroke outline or by consulting the capper and joiner) Canvas.Fit: the bounds of a path layer are grown on all four sides by half the stroke width under the sole condition that the style has a stroke. A further condition on the bounds themselves (Rect.Empty is true for any rectangle of zero width or height) drops exactly horizontal and vertical stroked lines from the fit, and content then lies outside the canvas")
 	p := c.MustPkg("")
 	info := p.TypesInfo
 	fd := core.MustFuncDecl(p, "Canvas.Fit")
@@ -2445,6 +2488,32 @@ func E11FitStroke(c *core.Ctx, r *core.Report) {
 					sides["X0"], sides["Y0"], sides["X1"], sides["Y1"] = true, true, true, true
 				}
 			}
+		}
+		// the stroke of a path reaches further than half its width where it has miter joins (up to the
+		// miter limit times the half width) or square caps (√2 times): either the bounds are those of the
+		// stroke outline (a Path.Stroke call in the block) or the block looks at the capper and the joiner
+		usesOutline := false
+		ast.Inspect(g.Body, func(m ast.Node) bool {
+			switch x := m.(type) {
+			case *ast.CallExpr:
+				if f := core.CalleeOf(info, x); f != nil && core.QualifiedCallee(f) == core.Module+".Path.Stroke" {
+					usesOutline = true
+				}
+			case *ast.SelectorExpr:
+				if x.Sel.Name == "StrokeCapper" || x.Sel.Name == "StrokeJoiner" {
+					usesOutline = true
+				}
+			}
+			return true
+		})
+		if usesOutline {
+			r.OK("E11.fit-stroke", key+"|caps and joins", c.Pos(g.Pos()), "")
+			if len(sides) != 4 {
+				// the outline's own bounds replace the four-sided expansion
+				sides = map[string]bool{"X0": true, "Y0": true, "X1": true, "Y1": true}
+			}
+		} else {
+			r.Fail("E11.fit-stroke", key+"|caps and joins", c.Pos(g.Pos()), "the bounds of a stroked path are grown by half the stroke width on all sides, whatever its caps and joins: the tip of a miter join and the corners of a square cap lie outside the fitted canvas")
 		}
 		if len(sides) == 4 {
 			r.OK("E11.fit-stroke", key+"|four sides", c.Pos(g.Pos()), "X0, Y0 lowered and X1, Y1 raised by StrokeWidth/2")
@@ -6321,7 +6390,7 @@ func E11GlyphIndexDomain(c *core.Ctx, r *core.Report) {
 
 // E11MatrixInverse: the entries of Matrix.Inv are divided by the determinant itself.
 func E11MatrixInverse(c *core.Ctx, r *core.Report) {
-	r.Rule("E11.matrix-inverse", "Matrix.Inv returns the adjugate divided by the determinant. Every entry of the returned literal is a quotient whose divisor is the determinant itself: the call m.Det() or a local whose only definition is that call — not a function of it. Dividing by math.Abs(det) (a tidy-looking singularity guard reused as divisor) negates the inverse of every orientation-reversing matrix: Inv(ReflectX)·ReflectX is −I. (The cofactors themselves are arithmetic and are not decided.)")
+	r.Rule("E11.matrix-inverse", "Matrix.Inv returns the inverse of the affine matrix: with d standing for 1/det, every entry of the result — a matrix literal, possibly completed by assignments to single entries before it is returned — is expanded to a polynomial in the entries of m and d (a division is accepted only by the determinant itself: m.Det() or a local defined as exactly that call), and the six identities of M·Inv = I are checked as polynomial identities modulo d·det = 1: Σₖ m[i][k]·inv[k][j] = δᵢⱼ·d·det for the linear part and Σₖ m[i][k]·inv[k][2] + m[i][2]·d·det = 0 for the translation. A cofactor with the wrong entry (the translation row using inv[0][1] for inv[1][0]) or a division by |det| fails an identity; any arrangement of the same algebra passes")
 	p := c.MustPkg("")
 	info := p.TypesInfo
 	fd := core.MustFuncDecl(p, "Matrix.Inv")
@@ -6362,37 +6431,169 @@ func E11MatrixInverse(c *core.Ctx, r *core.Report) {
 		})
 		return cnt == 1 && good
 	}
-	var lit *ast.CompositeLit
-	ast.Inspect(fd.Body, func(m ast.Node) bool {
-		if rs, ok := m.(*ast.ReturnStmt); ok && len(rs.Results) == 1 {
-			if cl, ok := core.Unparen(rs.Results[0]).(*ast.CompositeLit); ok {
-				lit = cl
+	key := "canvas.Matrix.Inv|M·Inv = I as polynomial identities"
+	// entry indices of X[i][j] with constant i, j
+	entry := func(e ast.Expr) (types.Object, int, int, bool) {
+		o, ok := core.Unparen(e).(*ast.IndexExpr)
+		if !ok {
+			return nil, 0, 0, false
+		}
+		in, ok := core.Unparen(o.X).(*ast.IndexExpr)
+		if !ok {
+			return nil, 0, 0, false
+		}
+		id, ok := core.Unparen(in.X).(*ast.Ident)
+		if !ok {
+			return nil, 0, 0, false
+		}
+		a, ok1 := core.ConstInt(info, in.Index)
+		b, ok2 := core.ConstInt(info, o.Index)
+		if !ok1 || !ok2 || a < 0 || a > 1 || b < 0 || b > 2 {
+			return nil, 0, 0, false
+		}
+		return core.ObjOf(info, id), int(a), int(b), true
+	}
+	var res [2][3]poly
+	have := false
+	var resObj types.Object
+	undecided := ""
+	var eval func(e ast.Expr) poly
+	eval = func(e ast.Expr) poly {
+		e = core.Unparen(e)
+		if tv, ok := info.Types[e]; ok && tv.Value != nil {
+			if f, ok := constantFloat(tv.Value); ok && f == float64(int(f)) {
+				return polyTrim(poly{"": int(f)})
+			}
+			undecided = "a constant that is not an integer: " + types.ExprString(e)
+			return poly{}
+		}
+		if o, a, b, ok := entry(e); ok {
+			switch {
+			case o == recv:
+				return poly{fmt.Sprintf("m%d%d", a, b): 1}
+			case resObj != nil && o == resObj:
+				out := poly{}
+				for k, v := range res[a][b] {
+					out[k] = v
+				}
+				return out
+			}
+		}
+		switch x := e.(type) {
+		case *ast.UnaryExpr:
+			if x.Op == token.SUB {
+				return polyAdd(poly{}, eval(x.X), -1)
+			}
+			if x.Op == token.ADD {
+				return eval(x.X)
+			}
+		case *ast.BinaryExpr:
+			switch x.Op {
+			case token.ADD:
+				return polyAdd(eval(x.X), eval(x.Y), 1)
+			case token.SUB:
+				return polyAdd(eval(x.X), eval(x.Y), -1)
+			case token.MUL:
+				return polyMul(eval(x.X), eval(x.Y))
+			case token.QUO:
+				if isDet(x.Y) {
+					return polyMul(eval(x.X), poly{"d": 1})
+				}
+				undecided = "`" + types.ExprString(e) + "` divides by something other than the determinant itself (m.Det() or a local defined as exactly that)"
+				return poly{}
+			}
+		}
+		if undecided == "" {
+			undecided = "`" + types.ExprString(e) + "` is not built from entries of m, + − × and a division by the determinant"
+		}
+		return poly{}
+	}
+	readLit := func(cl *ast.CompositeLit) bool {
+		if len(cl.Elts) != 2 {
+			return false
+		}
+		for i, rowE := range cl.Elts {
+			row, ok := rowE.(*ast.CompositeLit)
+			if !ok || len(row.Elts) != 3 {
+				return false
+			}
+			for j, el := range row.Elts {
+				res[i][j] = eval(el)
 			}
 		}
 		return true
-	})
-	n := 0
-	if lit == nil {
-		r.Fail("E11.matrix-inverse", "canvas.Matrix.Inv|returned literal", c.Pos(fd.Pos()), "Inv does not return a matrix literal")
-		return
 	}
-	for i, rowE := range lit.Elts {
-		row, ok := rowE.(*ast.CompositeLit)
-		if !ok {
-			continue
-		}
-		for j, el := range row.Elts {
-			n++
-			key := fmt.Sprintf("canvas.Matrix.Inv|entry (%d,%d) is divided by the determinant itself", i, j)
-			be, ok := core.Unparen(el).(*ast.BinaryExpr)
-			if ok && be.Op == token.QUO && isDet(be.Y) {
-				r.OK("E11.matrix-inverse", key, c.Pos(el.Pos()), "")
-			} else {
-				r.Fail("E11.matrix-inverse", key, c.Pos(el.Pos()), fmt.Sprintf("`%s` is not a quotient by the determinant (m.Det() or a local defined as exactly that): the inverse of a matrix with a negative determinant comes out negated", c.Src(el)))
+	// straight-line: `X := Matrix{…}`, `X[i][j] = e`, `return X` or `return Matrix{…}`
+	for _, st := range fd.Body.List {
+		switch x := st.(type) {
+		case *ast.AssignStmt:
+			if len(x.Lhs) != 1 || len(x.Rhs) != 1 {
+				continue
+			}
+			if id, ok := x.Lhs[0].(*ast.Ident); ok {
+				if cl, ok := core.Unparen(x.Rhs[0]).(*ast.CompositeLit); ok {
+					if t := info.TypeOf(cl); t != nil && strings.HasSuffix(t.String(), "canvas.Matrix") && readLit(cl) {
+						resObj, have = core.ObjOf(info, id), true
+					}
+				}
+				continue
+			}
+			if o, a, b, ok := entry(x.Lhs[0]); ok && resObj != nil && o == resObj {
+				switch x.Tok {
+				case token.ASSIGN:
+					res[a][b] = eval(x.Rhs[0])
+				case token.ADD_ASSIGN:
+					res[a][b] = polyAdd(res[a][b], eval(x.Rhs[0]), 1)
+				case token.SUB_ASSIGN:
+					res[a][b] = polyAdd(res[a][b], eval(x.Rhs[0]), -1)
+				default:
+					undecided = "an entry of the result is updated with `" + x.Tok.String() + "`"
+				}
+			}
+		case *ast.ReturnStmt:
+			if len(x.Results) == 1 {
+				if cl, ok := core.Unparen(x.Results[0]).(*ast.CompositeLit); ok {
+					have = readLit(cl)
+				}
 			}
 		}
 	}
-	r.Count("E11.inverse-entries", n)
+	if !have {
+		r.Fail("E11.matrix-inverse", key, c.Pos(fd.Pos()), "the six entries of the result could not be read off a matrix literal (returned, or assigned to a local that is completed entry by entry)")
+		return
+	}
+	if undecided != "" {
+		r.Fail("E11.matrix-inverse", key, c.Pos(fd.Pos()), undecided+": the inverse of a matrix with a negative determinant may come out negated")
+		return
+	}
+	m := func(a, b int) poly { return poly{fmt.Sprintf("m%d%d", a, b): 1} }
+	det := polyAdd(polyMul(m(0, 0), m(1, 1)), polyMul(m(0, 1), m(1, 0)), -1)
+	one := polyMul(poly{"d": 1}, det) // d·det, which is 1
+	bad := ""
+	for i := 0; i < 2; i++ {
+		for j := 0; j < 3; j++ {
+			lhs := polyAdd(polyMul(m(i, 0), res[0][j]), polyMul(m(i, 1), res[1][j]), 1)
+			var want poly
+			switch {
+			case j == 2:
+				lhs = polyAdd(lhs, polyMul(m(i, 2), one), 1)
+				want = poly{}
+			case i == j:
+				want = one
+			default:
+				want = poly{}
+			}
+			if !polyEqual(lhs, want) && bad == "" {
+				bad = fmt.Sprintf("row %d of m times column %d of the result is %s, want %s (d = 1/det)", i, j, lhs, want)
+			}
+		}
+	}
+	if bad == "" {
+		r.OK("E11.matrix-inverse", key, c.Pos(fd.Pos()), "six identities")
+	} else {
+		r.Fail("E11.matrix-inverse", key, c.Pos(fd.Pos()), bad+": Inv is not the inverse")
+	}
+	r.Count("E11.inverse-entries", 6)
 	r.Floor("E11.inverse-entries", 6)
 }
 
@@ -9418,4 +9619,296 @@ func E11AlignedWidthExcludesEOL(c *core.Ctx, r *core.Report) {
 	r.Floor("E11.aligned-offsets", 2)
 	r.Count("E11.stretch-additions", m)
 	r.Floor("E11.stretch-additions", 1)
+}
+
+// E11GradientPad: a gradient is padded with its first colour up to the first stop.
+func E11GradientPad(c *core.Ctx, r *core.Report) {
+	r.Rule("E11.gradient-pad", "Stops.At gives the colour the rasterizer paints at parameter t; the SVG and PDF writers describe the same gradient by its stops, and both formats pad: before the first stop the first colour, after the last stop the last. Stops.At therefore returns stops[0].Color under a condition that compares t with the first stop's own Offset (not only with 0): otherwise, for a first stop at an offset above 0, the interpolation between the first two stops is evaluated with a negative parameter and the rasterizer paints an extrapolated (wrapped-around) colour where the vector back-ends show the first colour")
+	p := c.MustPkg("")
+	info := p.TypesInfo
+	fd := core.MustFuncDecl(p, "Stops.At")
+	r.Func("canvas.Stops.At")
+	recv := recvObj(info, fd)
+	tObj := paramObj(info, fd, 0)
+	key := "canvas.Stops.At|first colour up to the first stop's offset"
+	// `recv[0].F`
+	firstField := func(e ast.Expr, field string) bool {
+		se, ok := core.Unparen(e).(*ast.SelectorExpr)
+		if !ok || se.Sel.Name != field {
+			return false
+		}
+		ie, ok := core.Unparen(se.X).(*ast.IndexExpr)
+		if !ok {
+			return false
+		}
+		id, ok := core.Unparen(ie.X).(*ast.Ident)
+		if !ok || core.ObjOf(info, id) != recv {
+			return false
+		}
+		v, ok := core.ConstInt(info, ie.Index)
+		return ok && v == 0
+	}
+	found := false
+	var walk func(is *ast.IfStmt)
+	walk = func(is *ast.IfStmt) {
+		returnsFirst := false
+		for _, st := range is.Body.List {
+			if ret, ok := st.(*ast.ReturnStmt); ok && len(ret.Results) == 1 && firstField(ret.Results[0], "Color") {
+				returnsFirst = true
+			}
+		}
+		if returnsFirst {
+			ast.Inspect(is.Cond, func(k ast.Node) bool {
+				be, ok := k.(*ast.BinaryExpr)
+				if !ok || (be.Op != token.LSS && be.Op != token.LEQ) {
+					return true
+				}
+				// canonical orientation: t <(=) stops[0].Offset
+				if id, ok := core.Unparen(be.X).(*ast.Ident); ok && core.ObjOf(info, id) == tObj && firstField(be.Y, "Offset") {
+					found = true
+				}
+				return true
+			})
+		}
+		if el, ok := is.Else.(*ast.IfStmt); ok {
+			walk(el)
+		}
+	}
+	ast.Inspect(fd.Body, func(m ast.Node) bool {
+		if is, ok := m.(*ast.IfStmt); ok {
+			walk(is)
+			return false
+		}
+		return true
+	})
+	if found {
+		r.OK("E11.gradient-pad", key, c.Pos(fd.Pos()), "")
+	} else {
+		r.Fail("E11.gradient-pad", key, c.Pos(fd.Pos()), "no return of the first stop's colour is guarded by a comparison of t with the first stop's Offset: for 0 < t < stops[0].Offset the colour is extrapolated from the first two stops instead of padded")
+	}
+	r.Count("E11.gradient-pad-sites", 1)
+	r.Floor("E11.gradient-pad-sites", 1)
+}
+
+// E11PixelLoopBounds: a loop over the pixels of an image runs over the image's own rectangle.
+func E11PixelLoopBounds(c *core.Ctx, r *core.Report) {
+	r.Rule("E11.pixel-loop-bounds", "renderers/rasterizer: the coordinates handed to At/Set/SetRGBA are image coordinates, and an image's rectangle need not start at the origin (a SubImage window, a rectangle with negative Min). A counted loop whose variable is such a coordinate runs from the rectangle's Min to its Max on the matching axis — `Bounds().Min.X … Bounds().Max.X` for the first coordinate, `.Y` for the second (directly, or through locals assigned from them). A loop from 0, or up to Dx()/Dy(), covers the image only when its rectangle starts at the origin: on a window at (10,10) the gamma compression at Close then skips the pixels beyond (Dx, Dy), so one uniform fill has two colours")
+	p := c.MustPkg("renderers/rasterizer")
+	info := p.TypesInfo
+	n := 0
+	for _, fd := range core.AllFuncDecls(p) {
+		if strings.HasSuffix(c.Fset.Position(fd.Pos()).Filename, "_test.go") {
+			continue
+		}
+		defs := singleDefs(info, fd.Body)
+		// corner(e) = "Min.X", "Max.Y", … if e is that field of a Bounds() call (or of a local holding one)
+		var corner func(e ast.Expr, depth int) string
+		corner = func(e ast.Expr, depth int) string {
+			if depth > 4 {
+				return ""
+			}
+			e = core.Unparen(e)
+			if id, ok := e.(*ast.Ident); ok {
+				if d, ok := defs[core.ObjOf(info, id)]; ok {
+					return corner(d, depth+1)
+				}
+				return ""
+			}
+			axis, ok := e.(*ast.SelectorExpr)
+			if !ok || (axis.Sel.Name != "X" && axis.Sel.Name != "Y") {
+				return ""
+			}
+			mm, ok := core.Unparen(axis.X).(*ast.SelectorExpr)
+			if !ok || (mm.Sel.Name != "Min" && mm.Sel.Name != "Max") {
+				return ""
+			}
+			isBounds := func(x ast.Expr) bool {
+				x = core.Unparen(x)
+				if id, ok := x.(*ast.Ident); ok {
+					if d, ok := defs[core.ObjOf(info, id)]; ok {
+						x = core.Unparen(d)
+					}
+				}
+				call, ok := x.(*ast.CallExpr)
+				if !ok {
+					return false
+				}
+				se, ok := call.Fun.(*ast.SelectorExpr)
+				return ok && se.Sel.Name == "Bounds"
+			}
+			if !isBounds(mm.X) {
+				return ""
+			}
+			return mm.Sel.Name + "." + axis.Sel.Name
+		}
+		ast.Inspect(fd.Body, func(m ast.Node) bool {
+			fs, ok := m.(*ast.ForStmt)
+			if !ok || fs.Init == nil || fs.Cond == nil {
+				return true
+			}
+			init, ok := fs.Init.(*ast.AssignStmt)
+			if !ok || len(init.Lhs) != 1 || len(init.Rhs) != 1 {
+				return true
+			}
+			vid, ok := init.Lhs[0].(*ast.Ident)
+			if !ok {
+				return true
+			}
+			v := core.ObjOf(info, vid)
+			// is v a pixel coordinate? position 0 or 1 of an At/Set/SetRGBA call in the body
+			axis := ""
+			ast.Inspect(fs.Body, func(k ast.Node) bool {
+				call, ok := k.(*ast.CallExpr)
+				if !ok || len(call.Args) < 2 {
+					return true
+				}
+				se, ok := call.Fun.(*ast.SelectorExpr)
+				if !ok || (se.Sel.Name != "At" && se.Sel.Name != "Set" && !strings.HasPrefix(se.Sel.Name, "Set") && !strings.HasSuffix(se.Sel.Name, "At")) {
+					return true
+				}
+				for pos, name := range []string{"X", "Y"} {
+					if id, ok := core.Unparen(call.Args[pos]).(*ast.Ident); ok && core.ObjOf(info, id) == v {
+						if b, ok := info.TypeOf(id).Underlying().(*types.Basic); ok && b.Kind() == types.Int {
+							axis = name
+						}
+					}
+				}
+				return true
+			})
+			if axis == "" {
+				return true
+			}
+			n++
+			key := fmt.Sprintf("renderers/rasterizer.%s|pixel loop #%d over %s", core.FuncName(fd), n, axis)
+			lo := corner(init.Rhs[0], 0)
+			hi := ""
+			if be, ok := core.Unparen(fs.Cond).(*ast.BinaryExpr); ok && be.Op == token.LSS {
+				if id, ok := core.Unparen(be.X).(*ast.Ident); ok && core.ObjOf(info, id) == v {
+					hi = corner(be.Y, 0)
+				}
+			}
+			if lo == "Min."+axis && hi == "Max."+axis {
+				r.OK("E11.pixel-loop-bounds", key, c.Pos(fs.Pos()), "")
+			} else {
+				r.Fail("E11.pixel-loop-bounds", key, c.Pos(fs.Pos()), fmt.Sprintf("the loop runs from `%s` while `%s`, not from Bounds().Min.%s to Bounds().Max.%s: it covers the image only if its rectangle starts at the origin", types.ExprString(init.Rhs[0]), c.Src(fs.Cond), axis, axis))
+			}
+			return true
+		})
+	}
+	r.Count("E11.pixel-loops", n)
+	r.Floor("E11.pixel-loops", 4)
+}
+
+// E11QuadratureCoversArc: the intervals ellipseLength integrates over make up the arc's angular range.
+func E11QuadratureCoversArc(c *core.Ctx, r *core.Report) {
+	r.Rule("E11.quadrature-covers-arc", "ellipseLength integrates the speed of the ellipse, |(−rx·sinθ, ry·cosθ)|, which has period π, over the arc's parameter range [θ1, θ2]. On every return the intervals handed to the quadrature (their end points expanded to polynomials in θ1, θ2 and π, locals resolved) make up that range: intervals that start and end at the same angle modulo π are whole periods and may sit anywhere; the others chain — the first starts at θ1 (mod π), each next one starts where the previous ended (mod π), the last ends at θ2 (mod π) — and all extents add up to θ2 − θ1 exactly. For a circle only the extent matters; for an ellipse an interval of the right length at the wrong place ([0, Δ−π] for the part of a wide arc beyond its first half turn) measures a different piece of the curve")
+	p := c.MustPkg("")
+	info := p.TypesInfo
+	fd := core.MustFuncDecl(p, "ellipseLength")
+	r.Func("canvas.ellipseLength")
+	t1, t2 := paramObj(info, fd, 2), paramObj(info, fd, 3)
+	defs := singleDefs(info, fd.Body)
+	delete(defs, t1)
+	delete(defs, t2)
+	sym := func(e ast.Expr) string {
+		switch x := e.(type) {
+		case *ast.Ident:
+			switch core.ObjOf(info, x) {
+			case t1:
+				return "t1"
+			case t2:
+				return "t2"
+			}
+		case *ast.SelectorExpr:
+			if pk, ok := x.X.(*ast.Ident); ok && pk.Name == "math" && x.Sel.Name == "Pi" {
+				return "pi"
+			}
+		}
+		return ""
+	}
+	class := func(a poly) string { // the point modulo π
+		b := poly{}
+		for k, v := range a {
+			if k != "pi" {
+				b[k] = v
+			}
+		}
+		return b.String()
+	}
+	n := 0
+	ast.Inspect(fd.Body, func(m ast.Node) bool {
+		ret, ok := m.(*ast.ReturnStmt)
+		if !ok || len(ret.Results) != 1 {
+			return true
+		}
+		type iv struct{ a, b poly }
+		var ivs []iv
+		undecided := ""
+		ast.Inspect(ret.Results[0], func(k ast.Node) bool {
+			call, ok := k.(*ast.CallExpr)
+			if !ok || len(call.Args) != 3 {
+				return true
+			}
+			if f := core.CalleeOf(info, call); f == nil || !strings.HasPrefix(f.Name(), "gaussLegendre") {
+				return true
+			}
+			a, ok1 := polyOf(info, call.Args[1], sym, defs)
+			b, ok2 := polyOf(info, call.Args[2], sym, defs)
+			if !ok1 || !ok2 {
+				undecided = "the limits of `" + types.ExprString(call) + "` are not polynomials in θ1, θ2 and π"
+			}
+			ivs = append(ivs, iv{a, b})
+			return true
+		})
+		if len(ivs) == 0 {
+			return true
+		}
+		n++
+		key := fmt.Sprintf("canvas.ellipseLength|return #%d integrates over the arc's range", n)
+		if undecided != "" {
+			r.Fail("E11.quadrature-covers-arc", key, c.Pos(ret.Pos()), undecided)
+			return true
+		}
+		total := poly{}
+		var chain []iv
+		for _, v := range ivs {
+			total = polyAdd(total, polyAdd(v.b, v.a, -1), 1)
+			if class(v.a) != class(v.b) {
+				chain = append(chain, v)
+			}
+		}
+		bad := ""
+		if !polyEqual(total, poly{"t2": 1, "t1": -1}) {
+			bad = "the extents add up to " + total.String() + ", not θ2 − θ1"
+		}
+		// order the chain greedily from class(t1)
+		at := poly{"t1": 1}.String()
+		used := make([]bool, len(chain))
+		for step := 0; step < len(chain) && bad == ""; step++ {
+			found := false
+			for i, v := range chain {
+				if !used[i] && class(v.a) == at {
+					used[i], found, at = true, true, class(v.b)
+					break
+				}
+			}
+			if !found {
+				bad = "no interval starts at " + at + " (modulo π): the pieces do not follow one another along the arc"
+			}
+		}
+		if bad == "" && at != (poly{"t2": 1}).String() && len(chain) > 0 {
+			bad = "the chain of intervals ends at " + at + ", not at θ2 (modulo π)"
+		}
+		if bad == "" && len(chain) == 0 && !polyEqual(total, poly{}) {
+			bad = "only whole periods are integrated"
+		}
+		if bad == "" {
+			r.OK("E11.quadrature-covers-arc", key, c.Pos(ret.Pos()), fmt.Sprintf("%d interval(s)", len(ivs)))
+		} else {
+			r.Fail("E11.quadrature-covers-arc", key, c.Pos(ret.Pos()), bad+": for rx ≠ ry the integral is that of another part of the ellipse")
+		}
+		return true
+	})
+	r.Count("E11.quadrature-returns", n)
+	r.Floor("E11.quadrature-returns", 1)
 }
